@@ -168,7 +168,7 @@ pub fn gen_tower(prop: Prop, rng: &mut Rng, _thorough: bool) -> History {
         }
     };
     gen_scene(rng, &mut em, 0, &cfg);
-    em.finish(buggify, 0, 50_000_000, format!("{:?} clip={} layer={} transform={} nop={}", prop, cfg.p_clip, cfg.p_layer, cfg.p_transform, cfg.p_nop))
+    em.finish(buggify, 0, 2_000_000_000, format!("{:?} clip={} layer={} transform={} nop={}", prop, cfg.p_clip, cfg.p_layer, cfg.p_transform, cfg.p_nop))
 }
 
 // ---------------------------------------------------------------------------
@@ -237,6 +237,11 @@ fn coverage_of(op: &Op, ctm: &Mat, w: i32, h: i32) -> Option<Vec<u8>> {
 /// the colour the source has at every pixel (scaled by the global alpha), w*h words
 fn source_field(op: &Op, ctm: &Mat, w: i32, h: i32) -> Option<Vec<u32>> {
     let n = (w * h) as usize;
+    if let Op::Clear { argb } = op {
+        // clear() does not look at the transform
+        let c = SolidSource { a: argb[0], r: argb[1], g: argb[2], b: argb[3] }.to_u32();
+        return Some(vec![c; n]);
+    }
     let inv = match mk::mat(ctm).inverse() {
         Some(i) => i,
         None => return Some(vec![0; n]),
@@ -263,10 +268,6 @@ fn source_field(op: &Op, ctm: &Mat, w: i32, h: i32) -> Option<Vec<u32>> {
             let xf = Transform::translation(-x.0, -y.0).then_scale(img.w as f32 / rw.0, img.h as f32 / rh.0);
             let s = SrcSpec { kind: SrcKind::Image { img: img.clone(), repeat: false, bilinear: true, xf: mk::unmat(&xf) }, pre: None };
             Some(render(&s, opts.alpha.0))
-        }
-        Op::Clear { argb } => {
-            let c = SolidSource { a: argb[0], r: argb[1], g: argb[2], b: argb[3] }.to_u32();
-            Some(vec![c; n])
         }
         _ => None,
     }
